@@ -668,10 +668,13 @@ class Visitor:
             node: The node to visit.
         """
         type_guarded = self.type_guarded
+        guard = False
         if isinstance(node.parent, (ast.Module, ast.ClassDef)):  # type: ignore[attr-defined]
             condition = safe_get_condition(node.test, parent=self.current, log_level=None)
-            if str(condition) in {"typing.TYPE_CHECKING", "TYPE_CHECKING"}:
-                self.type_guarded = True
-        self.generic_visit(node)
+            guard = str(condition) in {"typing.TYPE_CHECKING", "TYPE_CHECKING"}
+        for child in ast_children(node):
+            # Only the body of the `if` is type-guarded: its `else` branch is what runs at runtime.
+            self.type_guarded = type_guarded or (guard and child in node.body)
+            self.visit(child)
         # Restore the previous state: an `if` nested in a type-guarded block must not end the guard.
         self.type_guarded = type_guarded
